@@ -312,8 +312,12 @@ class Parser:
     #   Return: tokens to be inserted
     #
     def expand_macro(self, buf, tok, math):
-        buf.next()
-        buf.skip_space()    # for macros without arguments, even if known
+        tok_next = buf.next()
+        # for macros without arguments, even if known: skip space that directly
+        # follows in the text, but do not cross the marks of an enclosing
+        # macro expansion (then, space behind the closing brace is kept)
+        while type(tok_next) in (defs.SpaceToken, defs.CommentToken):
+            tok_next = buf.next()
         if tok.txt not in self.the_macros:
             if not (math or tok.txt in self.unknowns):
                 self.unknowns.append(tok.txt)
